@@ -577,6 +577,8 @@ def oracle(c, impl, traj):
     tab, pend = [], []
     facts = {"deposits": 0, "projections": 0, "outside_steps": 0, "expansions": 0, "saves": 0, "wt_outside": 0,
              "wrapped_steps": 0, "restarts": 0, "rebins": 0}
+    restarted = False
+    off_at_restart = []
     lingering = False      # after a restart without keepHills the hills near the edges stay listed until the next projection
     nd = len(c["vars"])
     geom0 = [(v["nx"], v["lower"], v["upper"]) for v in c["vars"]]
@@ -594,6 +596,8 @@ def oracle(c, impl, traj):
             continue
         if e[0] in ("restart", "rebin"):
             facts["restarts"] += 1
+            restarted = True
+            off_at_restart = list(impl[n]["off"]) if n >= 0 else []
             if c["use_grids"]:
                 if pend:
                     facts["projections"] += 1
@@ -689,7 +693,7 @@ def oracle(c, impl, traj):
             if k == len(extra):
                 listed = listed[len(extra):]
         if not hills_close(listed, explicit, not has_restart(c)):
-            return ("schedule:hill-list", "step %d (it=%d): explicit hills are %s, the schedule prescribes %s" % (
+            return ("restart:hills-lost-on-reading-state" if restarted and len(listed) < len(explicit) else "schedule:hill-list", "step %d (it=%d): explicit hills are %s, the schedule prescribes %s" % (
                 n, it, [(h[0], h[2]) for h in im["hills"]], [(h[0], h[2]) for h in explicit]), n), facts
         eE, eF, ins = spec_bias(c, geom, x, tab, pend)
         if not ins and c["use_grids"]:
@@ -699,6 +703,10 @@ def oracle(c, impl, traj):
             misaligned = c["use_grids"] and any(v["gper"] and not (g[1] <= xv[0] < g[2]) for v, g, xv in zip(c["vars"], geom, x))
             if misaligned:
                 sig = "periodic:grid-not-aligned-with-wrapping-interval"
+            elif c["use_grids"] and not ins and restarted and e[0] == "step" and \
+                    any(not any(g[0] == h[0] for g in im["off"]) for h in off_at_restart) and e[1] is not None and \
+                    not any(ev[0] == "rebin" for ev in c["events"]):
+                sig = "restart:hills-lost-on-reading-state"
             elif c["use_grids"] and not ins:
                 eo = esum(c, x, im["off"]) + esum(c, x, pend)
                 dbl = [h for h in pend if any(g[0] == h[0] and g[2] == h[2] for g in im["off"])]
@@ -849,6 +857,30 @@ def check_one(run, c, impl, mo, txt, rcv, o, traj, mline):
             break
 
 
+def reload_witness(run, exe, d):
+    """a state read by an instance that already holds hills (outside the model): the energy at the same position must be
+    the same before and after, with and without grids"""
+    for name, use_grids in (("nogrid", False), ("grid", True)):
+        c = _cfg("w_reload_" + name, [_var()], [[0.5], [0.5], [0.5], [-0.25]], use_grids=use_grids)
+        L = scenario_text(c, False).split("\n")
+        L = [l for l in L if l and l != "metatraj m"]
+        L += ["save text c05rl.state", "load c05rl.state", "pos 1 0 0 %s" % V.hexf(-0.25), "runboundary", "step", "metadump m 0"]
+        txt = "\n".join(L) + "\n"
+        sc = os.path.join(d, "reload_%s.scn" % name)
+        open(sc, "w").write(txt)
+        rcv, o, ev = V.sh([exe, sc], cwd=d, timeout=120)
+        os.remove(sc)
+        en = [fh(l.split()[1]) for l in o.split("\n") if l.startswith("MENERGY")]
+        ok = rcv == 0 and len(en) == 5 and "LOAD err=ok" in o
+        run.count("w_reload_" + name, ok)
+        if not ok:
+            run.violation("crash", "reading a state into an instance that holds hills failed (rc=%d)" % rcv, {"kind": "scenario", "scenario": txt})
+        elif not close(en[4], en[3]):
+            run.violation("restart:hills-lost-on-reading-state",
+                          "state written and read back by the same instance (%s grids): energy at -0.25 was %r before and is %r after"
+                          % ("with" if use_grids else "without", en[3], en[4]), {"kind": "scenario", "scenario": txt})
+
+
 def setup():
     V.extract_model("C05", EXTRACT, DRIVER, ["ocaml/fops.ml"])
     V.build_prog("c05sim", PROGS["c05sim"])
@@ -902,6 +934,7 @@ def check(run):
         if nsample < 2 and impl:
             nsample += 1
             run.sample({"scenario": txt.split("\n")[:45], "last_step": {k: impl[-1].get(k) for k in ("it", "E", "F", "nhills", "nnew", "noff", "geom")}})
+    reload_witness(run, exe, d)
     run.cov["correspondence"].update({"scenarios": len(cs)})
 
 
